@@ -23,7 +23,8 @@ type OutKind int
 const (
 	ORet OutKind = iota
 	OPanic
-	OBack // reached the header of the loop being summarised (internal)
+	OBack  // reached the header of the loop being summarised (internal)
+	OAbort // exploration stopped at a construct outside the idiom family; the state carries the EUndecided effect
 )
 
 type Outcome struct {
@@ -417,6 +418,9 @@ func (ip *Interp) load(p PtrV, st *State, fr *frame, pos token.Pos) Val {
 }
 
 func (ip *Interp) staleUse(sv SliceV, what string, st *State, fr *frame, pos token.Pos) {
+	if sv.Stale != "" && sv.LenFresh && (what == "len" || what == "copy" || what == "clear") {
+		return // only the length is used, and it was set explicitly
+	}
 	if sv.Stale != "" {
 		st.addEffect(&Effect{Kind: EHazard, Pos: pos, Fn: fr.fn, Stack: fr.stack, Sites: fr.sites, Note: what + " of a slice header that " + sv.Stale})
 	}
@@ -620,7 +624,7 @@ func (ip *Interp) execFrom(fr *frame, b *ssa.BasicBlock, idx int, pred *ssa.Basi
 			}
 		}
 		ip.undecided(st, fr, token.NoPos, "block without terminator")
-		return nil
+		return []Outcome{{Kind: OAbort, St: st}}
 	}
 }
 
@@ -644,7 +648,7 @@ func (ip *Interp) execIf(fr *frame, b *ssa.BasicBlock, x *ssa.If, st *State) []O
 	}
 	if ip.npaths > ip.maxPaths {
 		ip.undecided(st, fr, x.Pos(), "path budget exhausted")
-		return nil
+		return []Outcome{{Kind: OAbort, St: st}}
 	}
 	if outs, ok := ip.ifConvert(fr, b, ct, st); ok {
 		return outs
@@ -776,7 +780,7 @@ func (ip *Interp) execLoop(fr *frame, lp *loopInfo, pred *ssa.BasicBlock, st *St
 	}
 	fail := func(why string) []Outcome {
 		ip.undecided(st, fr, ctx.Pos, "non-canonical loop: "+why)
-		return nil
+		return []Outcome{{Kind: OAbort, St: st}}
 	}
 	if pi < 0 {
 		return fail("entry edge not found")
@@ -936,7 +940,7 @@ func (ip *Interp) execLoop(fr *frame, lp *loopInfo, pred *ssa.BasicBlock, st *St
 			if !sameMem(memBefore, o.St) {
 				ip.undecided(post, fr, ctx.Pos, "non-canonical loop: the body changes a header or local object")
 			}
-		case OPanic:
+		case OPanic, OAbort:
 			result = append(result, o)
 		default:
 			ip.undecided(post, fr, ctx.Pos, "non-canonical loop: return from inside the loop")
@@ -1368,7 +1372,9 @@ func (ip *Interp) sliceExpr(fr *frame, x *ssa.Slice, st *State) {
 		fr.env[x] = UnknownV{Why: "slice", Typ: x.Type()}
 		return
 	}
-	ip.staleUse(sv, "slice expression", st, fr, x.Pos())
+	if x.High == nil || sv.Stale == "" {
+		ip.staleUse(sv, "slice expression", st, fr, x.Pos())
+	}
 	lo := mkInt(0, intT)
 	if x.Low != nil {
 		lo = ip.term(fr, x.Low, st)
@@ -1392,6 +1398,11 @@ func (ip *Interp) sliceExpr(fr *frame, x *ssa.Slice, st *State) {
 		Cap: mkBin(token.SUB, capEnd, lo, intT)}
 	if sv.Nil {
 		r.Nil = true
+	}
+	if sv.Stale != "" {
+		// an explicit high bound does not depend on the stale length; the
+		// capacity of the result still does
+		r.Stale, r.LenFresh = sv.Stale, x.High != nil
 	}
 	fr.env[x] = r
 }
